@@ -63,7 +63,7 @@ func (it *Interp) Step(toks []string, op string) string {
 		}
 		return "gone"
 	case "trace":
-		if len(toks) != 4 {
+		if len(toks) != 4 && len(toks) != 5 {
 			return "bad-op"
 		}
 		return it.dynTrace(toks)
@@ -91,11 +91,32 @@ func (it *Interp) dynTrace(toks []string) string {
 			it.dyn[ad] = strings.Split(string(out), "\n")
 		}
 	}
-	want := strings.Join(toks, " ") + " => "
+	// several variants (default / custom fallback, single options, forced rules) print the same op: answer with the
+	// least frequent result, i.e. the variant that behaves differently from the others (ties: the first seen)
+	want := strings.Join(toks, " ") + " " // with 4 tokens: any variant; with 5: exactly that one
+	if len(toks) == 5 {
+		want = strings.Join(toks, " ") + " => "
+	}
+	count := map[string]int{}
+	var order []string
 	for _, l := range it.dyn[ad] {
 		if strings.HasPrefix(l, want) {
-			return strings.TrimSpace(l[len(want):])
+			r := l[strings.Index(l, " => ")+4:]
+			r = strings.TrimSpace(r)
+			if count[r] == 0 {
+				order = append(order, r)
+			}
+			count[r]++
 		}
+	}
+	best := ""
+	for _, r := range order {
+		if best == "" || count[r] < count[best] {
+			best = r
+		}
+	}
+	if best != "" {
+		return best
 	}
 	return "unavailable"
 }
